@@ -111,6 +111,8 @@ def run_for_property(prop, ctx, src_root='/repo'):
         bad = payload
         if kind == 'mutant':
             want = v.get('expect')
+            if isinstance(want, dict):
+                want = want.get(prop)
             hit = [b for b in bad if want is None or want in b[0] or
                    want in b[1]]
             if hit:
